@@ -146,7 +146,7 @@ int main(int argc, char **argv) {
   int maxN = 3, maxDem = 2, maxCap = 3, maxCost = 2;
   c.rule =
       "all problems with 1..3 sinks, 1..3 sources (thorough: also 4x2, 2x4, 4x3 with costs {0,1,3}), demands 1..2, capacities 1..3, integer costs "
-      "0..2 (one large-spread value in thorough), total demand <= total capacity; the float constructor on the same costs scaled by {1, 0.37, 1e4} "
+      "0..2 (one large-spread value in thorough), total demand <= total capacity; 3 sinks x 4 sources with binary costs, demands/capacities 1..3; 4x4 assignment problems with costs {0,1,2} (quick: last sink free);  the float constructor on the same costs scaled by {1, 0.37, 1e4} "
       "(sizes up to 3x2/2x3 in quick); over-full variants after increaseCapacity(); oracle = direct feasibility sums, brute-force minimum over all "
       "integer allocations in the problem's own fixed-point costs, arg-max rule for toAssignment(); non-trivial = a capacity constraint is binding";
   c.bounds = th ? "<=4x3" : "<=3x3";
@@ -176,6 +176,21 @@ int main(int argc, char **argv) {
         }
         if (K * M <= 6 || th) gen(K, M, 4, cv, 2, 3);
       }
+    // three sinks x four sources with binary costs: chains of two hops through full sinks
+    gen(3, 4, 0, {0, 1}, 3, 3);
+    // four sinks: assignment problems (unit demands and capacities), three cost values; quick: last sink free of charge
+    {
+      std::vector<int> radix(th ? 16 : 12, 3);
+      for (vf::Odometer od(radix); !od.done; od.next()) {
+        Inst in;
+        in.kind = 0;
+        in.cap = {1, 1, 1, 1};
+        in.dem = {1, 1, 1, 1};
+        for (size_t i = 0; i < radix.size(); ++i) in.cost.push_back(od.v[i]);
+        while (in.cost.size() < 16) in.cost.push_back(0);
+        f(in);
+      }
+    }
     if (th) {
       std::vector<int> wide = {0, 1, 3, 1000};
       gen(2, 2, 0, wide, 4, 3);
